@@ -50,3 +50,5 @@ Definition trav_section (c : trav_case) (k : nat) : list event :=
 (* the hypotheses of C04_mutual_exclusion hold of the exported graph *)
 Definition trav_gwf (c : trav_case) : bool := let '(g, _, _, _) := c in gwf_b g.
 Definition trav_gwf_core (c : trav_case) : bool := let '(g, _, _, _) := c in gwf_core_b g.
+(* the hypotheses of C01_available_at_start_single_worker hold of the exported graph *)
+Definition trav_simple (c : trav_case) : bool := let '(g, _, _, _) := c in simple_b g.
